@@ -1,6 +1,7 @@
 package props
 
 import (
+	"slices"
 	"math"
 	"context"
 	"encoding/json"
@@ -880,6 +881,30 @@ func mergeJudge(sim *simrt.Sim, c *MergeCase, cl *simrt.Client, stubs []*mStub, 
 		if repeated || len(got) != 1 {
 			if repeated {
 				st.Probe("repeated_count_id")
+				// which reply answers which of the same-named requests is not
+				// observable: the replies as a multiset are the per-request maxima
+				if complete && len(got) == len(ks) {
+					var wants, gots []uint64
+					for _, k := range ks {
+						mx := uint64(0)
+						for _, sb := range stubs {
+							for _, cr := range sb.recs {
+								if cr.req == -3 && cr.evIdx == k {
+									mx = max(mx, cr.msg.(*mocrelay.ServerCountMsg).Count)
+								}
+							}
+						}
+						wants = append(wants, mx)
+					}
+					for _, g := range got {
+						gots = append(gots, g.Msg.(*mocrelay.ServerCountMsg).Count)
+					}
+					slices.Sort(wants)
+					slices.Sort(gots)
+					if !slices.Equal(wants, gots) {
+						sim.Violate("C09", "wrong-count", map[string]string{"repeated": "true"}, "COUNT %s requested %d times: the replies carry %v, the per-request maxima of the children are %v", sub, len(ks), gots, wants)
+					}
+				}
 			}
 			continue
 		}
